@@ -91,6 +91,16 @@ def run_case(pair, ops, res):
                 ia, _ = p.do("open W D")
                 if ia != "ok":
                     raise Violation("reopen:result", "reopen answered " + ia[:100], k)
+            elif op[0] == "clear":
+                # a call that rewrites the header WITHOUT signing anything: the stored signature must still be the head's
+                if op[1] < len(blocks):
+                    ia, _ = p.do("clear W %d %d" % (op[1], op[2]))
+                    if ia != "ok":
+                        raise Violation("clear:result", "clear answered " + ia[:100], k)
+            elif op[0] == "readonly":
+                ia, _ = p.do("readonly W")
+                if not ia.startswith("ok"):
+                    raise Violation("readonly:result", "make_read_only answered " + ia[:100], k)
             check_core(p, blocks, res, "after step %d %s (%d blocks)" % (k, op_text(op), len(blocks)))
     except Violation as v:
         return dict(key=v.key, what=v.what, replay=dict(history=[op_json(o) for o in ops], failing_step=v.at))
@@ -108,6 +118,18 @@ def gen(r, tier):
             left -= k
             if r.random() < 0.25:
                 ops.append(("reopen",))
+        cases.append(ops)
+    # pending upgrade entries replayed by a reopen, then calls that rewrite the header without signing (clear,
+    # make_read_only), then reopen: signature and root hash in the header must still be the head's
+    for _ in range(12 if tier == "quick" else 300):
+        ops = []
+        for _ in range(r.choice([1, 2, 3])):
+            ops.append(("append", [rnd_block(r) for _ in range(r.choice([1, 1, 2, 3]))]))
+        ops.append(("reopen",))
+        tail = r.choice([[("clear", 0, 1)], [("readonly",)], [("clear", 0, 1), ("clear", 1, 2)], [("clear", 0, 1), ("readonly",)]])
+        ops += tail + [("reopen",)]
+        if tail[-1][0] != "readonly" and r.random() < 0.5:
+            ops += [("append", [rnd_block(r)]), ("reopen",)]
         cases.append(ops)
     for _ in range(3 if tier == "quick" else 40):
         n = r.choice([40, 64, 65, 100, 129]) if tier == "quick" else r.choice([257, 300, 512, 1025, 2000])
